@@ -238,6 +238,18 @@ def gen_history(rng, n_x=None):
                 g[name] = np.round(rng.normal(0, 1, (dim, n_x)), 3).tolist()
         points.append({"x": list(x), "f": f, "f_as": "float" if rng.random() < 0.5 else "array", "c": c, "g": g,
                        "c_as": c_as})
+    if n_pts > 1 and rng.random() < 0.15:
+        # two recorded points equal by value but bitwise distinct (0.0 / -0.0 component), in either order; their
+        # objective / constraint values stay the independent ones generated above
+        i, j = sorted(int(v) for v in rng.choice(n_pts, size=2, replace=False))
+        k = int(rng.integers(n_x))
+        base = list(points[i]["x"])
+        base[k] = 0.0
+        if not any(q is not points[i] and q is not points[j] and list(q["x"]) == base for q in points):
+            neg = list(base)
+            neg[k] = -0.0
+            first_negative = bool(rng.random() < 0.5)
+            points[i]["x"], points[j]["x"] = (neg, base) if first_negative else (base, neg)
     steps = None
     if n_pts > 1 and rng.random() < 0.3:
         # split stores: constraints first for everybody, then objective / gradients in a shuffled second pass
@@ -376,6 +388,13 @@ def judge(prob, hist, constraints, flags, rep, case, *, count=True, multi=False)
             rep.count("selection_nontrivial")
         if not flags["minimize"]:
             rep.count("maximize_cases")
+        twins = ref.value_twins(hist)
+        if twins:
+            rep.count("bitwise_twin_histories")
+            if any(j in an.acceptable and i not in an.acceptable for i, j in twins):
+                rep.count("later_bitwise_twin_is_the_only_acceptable_one")
+            if any(i in an.acceptable and j not in an.acceptable for i, j in twins):
+                rep.count("earlier_bitwise_twin_is_the_only_acceptable_one")
         # a feasible point without comparable objective recorded *before* a feasible point with a finite one
         first_usable = min(an.usable) if an.usable else None
         if first_usable is not None:
@@ -455,7 +474,14 @@ def judge(prob, hist, constraints, flags, rep, case, *, count=True, multi=False)
                 _judge_selection(an, rr, hist, constraints, tol_i, tol_e, feasible_branch, mode, partial, viol, rep,
                                  "result", prob)
             if res.optimum_index != rr:
-                viol("C04:result:optimum_index", "history index is that of the reported point", res.optimum_index, rr)
+                oi = res.optimum_index
+                twin = isinstance(oi, (int, np.integer)) and 0 <= oi < n and (min(oi, rr), max(oi, rr)) in ref.value_twins(hist)
+                viol("C04:result:optimum_index" + (":value-equal-bitwise-distinct-point" if twin else ""),
+                     "history index is that of the reported point (database position; keys compared bitwise)",
+                     {"optimum_index": oi, "recorded_there": hist[oi] if isinstance(oi, (int, np.integer)) and 0 <= oi < n else None},
+                     {"position_of_x_opt": rr, "recorded_there": hist[rr]})
+            elif count and ref.value_twins(hist):
+                rep.count("optimum_index_judged_with_bitwise_twins")
             if bool(res.is_feasible) != an.feasible[rr]:
                 viol("C04:result:feasibility-flag", "feasibility flag is that of the reported point",
                      bool(res.is_feasible), an.feasible[rr])
@@ -851,6 +877,18 @@ def directed_cases():
     out.append(_hc(one, [_pt([1.0], None, {"c": [-1.0]}), _pt([2.0], nan, {"c": [-1.0]}), _pt([3.0], 5.0, {"c": [-1.0]})]))
     out.append(_hc(one, [_pt([1.0], [nan, 0.0], {"c": [-1.0]}), _pt([2.0], [3.0, 4.0], {"c": [-1.0]}),
                          _pt([3.0], [1.0, 1.0], {"c": [-1.0]})], obj_dim=2))  # NaN component in a vector objective
+    # (seeded regression C04_4) -0.0 and +0.0 are two recorded points; the later twin is the best feasible point ...
+    gg = [["g", "ineq", 2]]
+    out.append(_hc(gg, [_pt([-0.0], 5.0, {"g": [1.0, -1.0]}), _pt([3.0], 4.0, {"g": [-1.0, -1.0]}),
+                        _pt([0.0], 1.0, {"g": [-2.0, -2.0]})]))
+    out.append(_hc(gg, [_pt([0.0], 5.0, {"g": [1.0, -1.0]}), _pt([3.0], 4.0, {"g": [-1.0, -1.0]}),
+                        _pt([-0.0], 1.0, {"g": [-2.0, -2.0]})]))
+    # ... the earlier twin is the best one; both feasible, later better; no feasible point (least infeasible = later twin)
+    out.append(_hc(gg, [_pt([-0.0], 1.0, {"g": [-2.0, -2.0]}), _pt([3.0], 4.0, {"g": [-1.0, -1.0]}),
+                        _pt([0.0], 5.0, {"g": [1.0, -1.0]})]))
+    out.append(_hc(gg, [_pt([1.0, 0.0], 2.0, {"g": [-1.0, -1.0]}), _pt([1.0, -0.0], -2.0, {"g": [-1.0, -1.0]})],
+                   n_x=2, minimize=False, standardized=False))
+    out.append(_hc(gg, [_pt([0.0], 1.0, {"g": [3.0, -1.0]}), _pt([-0.0], 1.0, {"g": [1.0, -1.0]})]))
     # maximisation, standardised or not; ties
     for std in (True, False):
         out.append(_hc(one, [_pt([1.0], -1.0, {"c": [-1.0]}), _pt([2.0], -4.0, {"c": [-1.0]}),
